@@ -59,6 +59,18 @@ class Background:
         return self.val
 
 
+def validate_in(module, tracefile, wd_name, timeout=900, heap="2g"):
+    """vlib.validate with its own TLC metadir, so that several validations of one module can run in parallel threads"""
+    r = vlib.tlc(module, module + ".cfg", workers=1, timeout=timeout, env={"TRACE": tracefile}, heap=heap, wd=vlib.workdir(wd_name))
+    res = r.results()
+    if not res:
+        raise vlib.MachineryError("trace validation produced no result (%s on %s):\n%s" % (module, tracefile, r.out[-4000:]))
+    out = res[-1]
+    out["tlc_states"] = r.distinct
+    out["wall"] = r.dt
+    return out
+
+
 def hexbytes(bs):
     return "".join("%02x" % b for b in bs)
 
@@ -122,7 +134,7 @@ def c10_script(rng, thorough):
             for _ in range(1 if t > 64 else 3):
                 good.append(perm(rng.sample(pos, t)))
         # the spec's own Combine on subsets (cost ~ t^2 each): fewer for large t
-        probes = good if t <= 16 else good[-2:] if t > 64 else good[-3:]
+        probes = good if t <= 16 else good[-1:] if t > 64 else good[-3:]
         subs = [list(g) for g in good]
         if malformed and 1 <= t <= n:
             a, b = (rng.sample(pos, 2) if n >= 2 else (1, 1))
@@ -181,17 +193,63 @@ def c10_script(rng, thorough):
     return lines
 
 
-def c10_drive(chk, lines, label, watchdog=3):
+def c10_raw(pid, lines, label, watchdog=3):
+    """run the driver on a script and validate the trace (no Check accounting: safe to call from threads)"""
     b = vlib.build("shamir")["shamir"]
-    wd = vlib.workdir("shamir-%s-%s" % (chk.pid, label))
+    wd = vlib.workdir("shamir-%s-%s" % (pid, label))
     script, trace = os.path.join(wd, "script.txt"), os.path.join(wd, "trace.ndjson")
     with open(script, "w") as f:
         f.write("\n".join(lines) + "\n")
     t0 = time.time()
     vlib.sh([b, script, trace], timeout=1500, env={"VERIF_WATCHDOG_S": str(watchdog)})
     events = vlib.read_ndjson(trace)
-    log("[drive] shamir %s: %d script lines -> %d events, %.1fs" % (label, len(lines), len(events), time.time() - t0))
-    res = vlib.validate("ShamirTrace", trace, timeout=2400, heap="3g")
+    t1 = time.time()
+    res = validate_in("ShamirTrace", trace, "tlcv-shamir-%s-%s" % (pid, label), timeout=2400, heap="3g")
+    log("[drive] shamir %s: %d script lines -> %d events, driver %.1fs, TLC validation %.1fs" % (label, len(lines), len(events), t1 - t0, time.time() - t1))
+    return events, res
+
+
+def split_behaviours(lines, k):
+    """cut a script at its reset lines into k scripts of roughly equal estimated cost (TLC cost ~ t^2 per probe)"""
+    behs = []
+    for ln in lines:
+        if ln == "reset" or not behs:
+            behs.append([])
+        behs[-1].append(ln)
+
+    def cost(b):
+        c = 1.0
+        for ln in b:
+            m = re.search(r" t=(\d+) .*probes=(\S*)", ln)
+            if m and ln.startswith("case"):
+                c += (int(m.group(1)) ** 2) * (1 + m.group(2).count("/")) / 400.0 + 2
+            elif ln.startswith("bij t=3"):
+                c += 40
+            elif ln.startswith("gf"):
+                c += 30
+        return c
+    bins = [[0.0, []] for _ in range(k)]
+    for b in sorted(behs, key=cost, reverse=True):
+        tgt = min(bins, key=lambda x: x[0])
+        tgt[0] += cost(b)
+        tgt[1] += b
+    return [b[1] for b in bins if b[1]]
+
+
+def c10_drive(chk, lines, label, watchdog=3, parts=3):
+    vlib.build("shamir")
+    scripts = split_behaviours(lines, parts)
+    with ThreadPoolExecutor(max_workers=parts) as ex:
+        outs = list(ex.map(lambda a: c10_raw(chk.pid, a[1], "%s-%d" % (label, a[0]), watchdog), enumerate(scripts)))
+    events = [e for o in outs for e in o[0]]
+    stats = {}
+    for o in outs:
+        for k_, v_ in (o[1].get("stats") or {}).items():
+            stats[k_] = stats.get(k_, 0) + v_
+    res = {"stats": stats, "viol": []}
+    for (ev_, r_), sc in zip(outs, scripts):
+        vlib.report_trace_violations(chk, r_, ev_, label=label)
+        res["viol"] += r_.get("viol", [])
     nb = sum(1 for e in events if e["op"] == "reset")
     chk.add_traces(nb, len(events), res, label)
     ncls = lambda v: "1" if v == 1 else "2-3" if v <= 3 else "4-16" if v <= 16 else "17-254" if v < 255 else "255"
@@ -211,7 +269,6 @@ def c10_drive(chk, lines, label, watchdog=3):
     smp = [e for e in events if e["op"] == "combine"][:2]
     chk.sample({"source": label, "stats": res.get("stats"),
                 "combine_events": [{k: (v if k not in ("shares",) else [s[0] for s in v]) for k, v in e.items()} for e in smp]})
-    vlib.report_trace_violations(chk, res, events, label=label)
     st = res.get("stats", {})
     log("[trace] shamir %s: %d behaviours, %d events, %d clause failures; stats %s" % (label, nb, len(events), len(res.get("viol", [])), json.dumps(st)))
     if st.get("design_checked", 0) != st.get("design_equal", 0):
